@@ -249,7 +249,7 @@ func predJSONData(c Case) (r Result) {
 	return
 }
 
-var c16EdgeArgs = []string{"`[]`", "`{}`", "`\"\"`", "'inf'", "'nan'", "'Infinity'", "'-inf'", "'1e999'", "'0x1p4'", "`null`", "`[[]]`", "`[null]`", "@", "a", "b", "[]", "*", "[*]", "[?a]", "[0:0]", "a[10:]"}
+var c16EdgeArgs = []string{"`[1]`", "`[\"a\"]`", "`[2,1]`", "`[{}]`", "`{\"a\":[]}`", "`0`", "`-0`", "`[]`", "`{}`", "`\"\"`", "'inf'", "'nan'", "'Infinity'", "'-inf'", "'1e999'", "'0x1p4'", "`null`", "`[[]]`", "`[null]`", "@", "a", "b", "[]", "*", "[*]", "[?a]", "[0:0]", "a[10:]"}
 
 // TestC16: all functions weighted equally, closure-threatening inputs injected often.
 func TestC16(t *testing.T) {
